@@ -158,6 +158,8 @@ def check(ann, stitch):
         if stitch and 'id-P3' not in kept:
             problems.append("%s: stitch node missing" % did)
         # re-keying changes only the key
+        if problems:
+            continue      # the partition is already unsound; re-keying it is not meaningful
         a2 = NetworkXADMFactory.create(adm)
         pre = snapshot(imp, adm.graph_id)
         a2.rewrite_delegations(real_adm_id='real-' + did)
@@ -167,7 +169,7 @@ def check(ann, stitch):
         for nid in pre[0]:
             for pk, pv in pre[0][nid].items():
                 if pk in (LD, CD) and pv:
-                    if json.loads(post[0][nid][pk]) != {'real-' + did: json.loads(pv)[did]}:
+                    if json.loads(post[0][nid][pk]) != {'real-' + did: json.loads(pv).get(did)}:
                         problems.append("%s: rewrite_delegations altered more than the key on %s" % (did, nid))
                 elif post[0][nid].get(pk) != pv:
                     problems.append("%s: rewrite_delegations changed %s of %s" % (did, pk, nid))
